@@ -15,6 +15,11 @@ def DiscardComplete (F : Framing σ) : Prop :=
   ∀ st rb st' rb', discardBuffered F (discardFuel rb) st rb = (none, st', rb') →
     F.parse st' rb' = (.none, st', rb')
 
+/-- the same for one reader state -/
+def DiscardCompleteAt (F : Framing σ) (st : σ) (rb : RB) : Prop :=
+  ∀ st' rb', discardBuffered F (discardFuel rb) st rb = (none, st', rb') →
+    F.parse st' rb' = (.none, st', rb')
+
 /-- a reader that holds no complete frame reports nothing without new bytes from the transport -/
 theorem readerPoll_blocked (F : Framing σ) (fuel : Nat) (st : σ) (rb : RB)
     (h : F.parse st rb = (.none, st, rb)) : readerPoll F fuel st rb [] = (.blocked, st, rb, []) := by
@@ -49,6 +54,18 @@ theorem startRequest_cases (F : Framing σ) (s : State σ) (m : Nat) (r : Req) :
           (generalize isLatest _ m = b; cases b <;> rfl)
 
 /-- the reader state in which `startRequest` leaves a request in flight -/
+theorem startRequest_reader_at (F : Framing σ) (s : State σ) (m : Nat)
+    (hF : DiscardCompleteAt F s.pst s.rb)
+    (r : Req) (m' : Nat) (r' : Req) (tx dl : Nat)
+    (h : (startRequest F s m r).pos = .inflight m' r' tx dl) :
+    F.parse (startRequest F s m r).pst (startRequest F s m r).rb
+      = (.none, (startRequest F s m r).pst, (startRequest F s m r).rb) := by
+  rcases startRequest_cases F s m r with ⟨s1, res, he⟩ | ⟨st', rb', hd, h1, h2⟩
+  · rw [he] at h
+    exact absurd h (finish_pos_not_inflight _ _ _ _ _ _ _ _)
+  · rw [h1, h2]
+    exact hF _ _ hd
+
 theorem startRequest_reader (F : Framing σ) (hF : DiscardComplete F) (s : State σ) (m : Nat)
     (r : Req) (m' : Nat) (r' : Req) (tx dl : Nat)
     (h : (startRequest F s m r).pos = .inflight m' r' tx dl) :
